@@ -62,6 +62,9 @@ def handle (op : String) (j : Json) : Option (Except String Json) :=
   | "c05.majorana" => some do
       let A ← J.op (← J.field j "A")
       .ok (J.ofOp (C05.bkMajorana tol (← nat j "n") (A.map fun (t, c) => (t.map (·.1), c))))
+  | "c05.majorana_ok" => some do
+      let A ← J.op (← J.field j "A")
+      .ok (Json.bool (C05.bkMajoranaOk tol (← nat j "n") (A.map fun (t, c) => (t.map (·.1), c))))
   | "c05.tree" => some do .ok (J.ofOp (C05.bkTreeFermion tol (← nat j "n") (← J.op (← J.field j "A"))))
   | "c05.tree_sets" => some do
       let n ← nat j "n"; let i ← nat j "index"
